@@ -3,6 +3,8 @@ import GenjaxModel.Model.GfiIO
 import GenjaxModel.Model.ResampleIO
 import GenjaxModel.Model.ChainIO
 import GenjaxModel.Model.StateIO
+import GenjaxModel.Model.HmmIO
+import GenjaxModel.Model.SeedIO
 /-! Line-protocol driver: one S-expression per input line, one per output line. -/
 open Genjax
 
@@ -20,6 +22,15 @@ def dispatch (e : SExp) : SExp :=
   | some r => r
   | none =>
   match stepState e with
+  | some r => r
+  | none =>
+  match stepHmm e with
+  | some r => r
+  | none =>
+  match stepKalman e with
+  | some r => r
+  | none =>
+  match stepSeed e with
   | some r => r
   | none => .list [.atom "bad-op"]
 
